@@ -23,7 +23,7 @@ func init() {
 		ID: "C03", Fn: c03,
 		Rule:        "one evaluation = one undo (or null-undo) after which all public observables are compared with the snapshot taken before the matching do; excursions are randomised depth-first walks over pseudo-legal moves (illegal ones undone immediately, as the search does) with null moves; distinct = distinct positions at which an undo was checked",
 		Assumptions: []string{"observables = public getters listed in C03 + Evaluate; raw struct equality is not demanded"},
-		Required:    []string{"undo_checked", "null_undo_checked", "undo_promotion", "undo_promotion_capture", "undo_enpassant", "undo_castling", "undo_illegal_pseudo", "depth_ge_6"},
+		Required:    []string{"undo_checked", "null_undo_checked", "near_capacity_roots", "undo_promotion", "undo_promotion_capture", "undo_enpassant", "undo_castling", "undo_illegal_pseudo", "depth_ge_6"},
 		MinEvals:    10000,
 	})
 	register(&CheckSpec{
@@ -179,6 +179,7 @@ func c03(c *Ctx) {
 	mg := movegen.NewMoveGen()
 	ev := evaluator.NewEvaluator()
 	over24 := false // sticky per position object: unclamped phase sum exceeded 24 at some visited node
+	nullChance := 0.3
 	var exc func(p *position.Position, r *Rng, d int, lastNull bool, path []string, root string)
 	exc = func(p *position.Position, r *Rng, d int, lastNull bool, path []string, root string) {
 		pre := snapshot(p, ev, true)
@@ -217,6 +218,25 @@ func c03(c *Ctx) {
 				}
 			}
 		}
+		doNull := func() {
+			if lastNull || d <= 0 || p.HasCheck() || !r.Chance(nullChance) {
+				return
+			}
+			p.DoNullMove()
+			exc(p, r, d-1, true, append(path, "null"), root)
+			p.UndoNullMove()
+			post := snapshot(p, ev, true)
+			rep.Eval(1)
+			rep.Inc("null_undo_checked")
+			for _, f := range diffFields(pre.Diff(post)) {
+				rep.Viol("nullundo:"+firstField(f)+over24Tag(firstField(f), over24), fmt.Sprintf("after DoNullMove+UndoNullMove on %s: %s", pre.Fen, f),
+					map[string]interface{}{"root": root, "path": append(append([]string{}, path...), "null"), "fen": pre.Fen, "diff": f})
+			}
+		}
+		nullFirst := r.Chance(0.5) // the search tries the null move before the move loop
+		if nullFirst {
+			doNull()
+		}
 		for _, m := range pick {
 			isCapture := p.GetPiece(m.To()) != types.PieceNone
 			cls := moveClass(rc.MustFEN(pre.Fen), fromEng(m))
@@ -252,19 +272,50 @@ func c03(c *Ctx) {
 					map[string]interface{}{"root": root, "path": append(append([]string{}, path...), m.StringUci()), "fen": pre.Fen, "diff": f})
 			}
 		}
-		if !lastNull && d > 0 && !p.HasCheck() && r.Chance(0.3) {
-			p.DoNullMove()
-			exc(p, r, d-1, true, append(path, "null"), root)
-			p.UndoNullMove()
-			post := snapshot(p, ev, true)
-			rep.Eval(1)
-			rep.Inc("null_undo_checked")
-			for _, f := range diffFields(pre.Diff(post)) {
-				rep.Viol("nullundo:"+firstField(f)+over24Tag(firstField(f), over24), fmt.Sprintf("after DoNullMove+UndoNullMove on %s: %s", pre.Fen, f),
-					map[string]interface{}{"root": root, "path": append(append([]string{}, path...), "null"), "fen": pre.Fen, "diff": f})
+		if !nullFirst {
+			doNull()
+		}
+	}
+	// excursions from positions whose history is close to / at the capacity of the
+	// position's history (512 entries): the search of a long game lives there
+	idxNC := 0
+	nullChance = 0.6
+	var ncLens []int
+	for n := 470; n <= 530; n++ {
+		ncLens = append(ncLens, n)
+	}
+	for rep2 := 0; rep2 < 6; rep2++ { // the plies just below the capacity, where search plies cross it
+		for n := 500; n <= 512; n++ {
+			ncLens = append(ncLens, n)
+		}
+	}
+	for _, n := range ncLens {
+		for variant := 0; variant < 2; variant++ {
+			idxNC++
+			if !c.Mine(idxNC) {
+				continue
+			}
+			r := SubRng(c.Seed, "c03/nearcap", idxNC)
+			start := rc.MustFEN(rc.StartFEN)
+			if variant == 1 {
+				start = rc.MustFEN("r3k2r/pppppppp/8/8/8/8/PPPPPPPP/R3K2R w KQkq - 0 1")
+			}
+			steps := playout(r, start, n, Bias{Capture: 0.02, Castle: 0.2, Promo: 1, Ep: 1, Double: 0.05, KingRook: 1, Shuffle: 6})
+			if len(steps) < n {
+				continue
+			}
+			p := engPos(start.FEN())
+			over24 = false
+			for _, st := range steps {
+				p.DoMove(toEng(st.Move))
+			}
+			rep.Inc("near_capacity_roots")
+			for k := 0; k < 7; k++ {
+				exc(p, r, 3+r.Intn(8), false, nil, fmt.Sprintf("%s + %d plies of play", start.FEN(), n))
 			}
 		}
 	}
+	nullChance = 0.3
 	nPlay := c.Size(160, 6000)
 	nSynth := c.Size(700, 25000)
 	gi := 0
